@@ -446,6 +446,13 @@ func (h *histState) doProbe(i int, op *Op) {
 	h.log.Add("op %d probe obj=%d reg=%d cfg=%d script=%s -> %s calls=%d", i, op.Obj, op.Reg, m.Cfg, shortHash(mustJSON(op.Script)), cs.hash(), len(clog))
 	h.checkReadOnly(i, o)
 	if cs.Panic != "" {
+		for _, n := range sortedKeys(op.Script) {
+			if a := op.Script[n]; a.Panic != "" && probeByName[n] != nil && probeByName[n].Kind == KCert && o.spec.Kind == KCert && m.Sel[n] {
+				h.violate(Violation{Property: "C04", Class: "panic_not_contained", Op: i, Site: a.Panic + "@" + a.PanicAt,
+					Detail: "a panicking rule body (or applicability test / option hand-out) of a certificate lint was not turned into that lint's fatal result; the panic left the lint call: " + clip(cs.Panic, 200)})
+				break
+			}
+		}
 		return
 	}
 	// group the call log by probe
